@@ -67,6 +67,12 @@ def _size(t, depth=0):
     return 1 + sum(_size(m, depth + 1) for m in ms)
 
 
+def _reaches(x, target, depth=0):
+    if x is target:
+        return True
+    return depth < 20 and any(_reaches(m, target, depth + 1) for m in getattr(x, "transforms", ()))
+
+
 def main(out, seed, n_traces, n_ops):
     from harness import pytest_comprec as rec
 
@@ -92,7 +98,7 @@ def main(out, seed, n_traces, n_ops):
                         continue
                     if hasattr(a, "h_matrix") and np.abs(a.h_matrix).max() > 1e6:
                         continue
-                    if _size(a) + _size(b) > 14:
+                    if _size(a) + _size(b) > 14 or _reaches(b, a):      # (the specification does not explore self-containing chains)
                         continue
                     getattr(a, "compose_%s" % op)(b)
                     r = None
